@@ -701,6 +701,95 @@ def shrink_session(ctx, o):
         return o
 
 
+# ----------------------------------------------------------------------------------------
+# the dispatcher model: what is a function of the request alone (descriptive data, the checks of activate / logging) is
+# computed on a FRESH node per entry -- the node under test, whatever it has been through, must answer alike
+# ----------------------------------------------------------------------------------------
+_STATIC = {}
+
+
+class _NullConn:
+    def send_reply(self, msg):
+        pass
+
+
+def _outcome(func):
+    """{'r': 'ok', 'd': hex of the JSON text | None} / {'r': 'secop', 'cls': hex} / {'r': 'exc'}"""
+    from frappy.errors import SECoPError
+    try:
+        data = func()
+        return {'r': 'ok', 'd': None if data is None else hx(json.dumps(data).encode())}
+    except SECoPError as e:
+        return {'r': 'secop', 'cls': hx(str(e.name).encode())}
+    except Exception:
+        return {'r': 'exc'}
+
+
+def static_entry(kind, spec, level=None):
+    key = (kind, spec, json.dumps(level))
+    if key not in _STATIC:
+        node = make_real_node(False)
+        with contextlib.redirect_stdout(io.StringIO()):
+            if kind == 'describe':
+                _STATIC[key] = _outcome(lambda: node.secnode.get_descriptive_data(spec))
+            elif kind == 'activate':
+                _STATIC[key] = _outcome(lambda: node.dispatcher.handle_activate(_NullConn(), spec, None) and None)
+            else:
+                _STATIC[key] = _outcome(lambda: node.dispatcher.handle_logging(_NullConn(), spec, level) and None)
+    return _STATIC[key]
+
+
+def dispatch_request(im):
+    """the request for the dispatcher model: the calls the real dispatcher got, what the module did in each, the tables"""
+    from frappy.protocol.messages import DESCRIPTIONREQUEST, ENABLEEVENTSREQUEST, LOGGING_REQUEST
+    calls, descr, act, logg, truthy = [], {}, {}, {}, {}
+    for (action, spec, data), rec in zip(im['calls'], im['script']):
+        d = None if data is None else hx(json.dumps(data).encode())
+        mod = {'r': rec.get('r'), 'd': rec.get('d'), 'cls': rec.get('cls')} if rec.get('r') in ('ok', 'secop') else {'r': 'exc'}
+        calls.append({'a': hx(enc(action)), 's': None if spec is None else hx(enc(spec)), 'd': d, 'mod': mod})
+        if d is not None:
+            truthy[d] = bool(data)
+        if action == DESCRIPTIONREQUEST:
+            descr[hx(enc(spec or ''))] = static_entry('describe', spec or '')
+        elif action == ENABLEEVENTSREQUEST and spec:
+            act[hx(enc(spec))] = static_entry('activate', spec).get('cls')
+        elif action == LOGGING_REQUEST:
+            logg[(None if spec is None else hx(enc(spec)), d)] = static_entry('logging', spec, data)
+    return {'p': 'C07', 'k': 'dispatch', 'calls': calls,
+            'describe': [dict(v, s=k) for k, v in descr.items()],
+            'activate': [{'s': k, 'cls': v} for k, v in act.items()],
+            'logging': [dict(v, s=k[0], lv=k[1]) for k, v in logg.items()],
+            'truthy': [[k, v] for k, v in truthy.items()]}
+
+
+def count_dispatch(res, ev):
+    if 'dmodel' in ev:
+        for call, mr in zip(ev['impl']['calls'], ev['dmodel']['results']):
+            res.count('dispatcher-model.%s.%s' % (call[0] if call[0] in known_actions() else 'other', mr['r']))
+
+
+def compare_dispatch(ev):
+    """dispatcher model vs the real Dispatcher, per call: kind of outcome, reply action, specifier, error class, and the
+    data (as JSON text; not for `ping`, whose data is a time stamp)"""
+    from frappy.protocol.messages import HEARTBEATREQUEST
+    im = ev['impl']
+    for k, (call, rec, mr) in enumerate(zip(im['calls'], im['script'], ev['dmodel']['results'])):
+        impl = {'r': rec.get('r')}
+        if impl['r'] == 'ok':
+            impl.update(a=rec['a'], s=rec['s'], d=rec['d'])
+        elif impl['r'] == 'secop':
+            impl.update(cls=rec['cls'])
+        model = dict(mr)
+        if call[0] == HEARTBEATREQUEST and impl['r'] == 'ok' and model['r'] == 'ok':
+            impl['d'], model['d'] = impl['d'] is not None, model['d'] is not None
+        if impl != model:
+            def short(x):
+                return {kk: (bytes.fromhex(v)[:80] if isinstance(v, str) and kk != 'r' else v) for kk, v in x.items()}
+            return {'what': 'what the dispatcher did with a request', 'index': k, 'request': repr(call)[:120],
+                    'model': short(model), 'impl': short(impl)}
+    return None
+
+
 def oracle_tables(ctx, streams):
     """utf8ok / json.loads answers of the real Python functions on the arguments the model will pass"""
     answers = ctx.driver.batch([{'p': 'C07', 'k': 'split', 'stream': hx(s)} for s in streams])
@@ -750,6 +839,9 @@ def evaluate(ctx, cases, impls=None):
         reqs.append({'p': 'C07', 'k': 'serve', 'chunks': c['chunks'], 'utf8': utf8, 'json': js, 'script': im['script']})
         reqs.append({'p': 'C07', 'k': 'judge', 'stream': hx(s), 'outs': [hx(o) for o in im['outs']],
                      'flags': [line_flags(o, c['disp']['kind'] == 'real') for o in im['outs']]})
+    real = [i for i, c in enumerate(cases) if c['disp']['kind'] == 'real']
+    for i in real:
+        reqs.append(dispatch_request(impls[i]))
     ans = ctx.driver.batch(reqs)
     out = []
     for i, (c, im, s) in enumerate(zip(cases, impls, streams)):
@@ -757,6 +849,10 @@ def evaluate(ctx, cases, impls=None):
         if 'driver_error' in model or 'driver_error' in judge:
             raise RuntimeError(f'driver error: {model} {judge} on {c}')
         out.append({'case': c, 'impl': im, 'model': model, 'judge': judge, 'stream': s})
+    for i, a in zip(real, ans[2 * len(cases):]):
+        if 'driver_error' in a:
+            raise RuntimeError(f'driver error: {a} on {cases[i]}')
+        out[i]['dmodel'] = a
     return out
 
 
@@ -777,6 +873,8 @@ def compare(ev):
             return {'what': 'request seen by the dispatcher', 'index': k, 'model': mc, 'impl': repr(ic)[:200]}
     if not model['same_as_unsegmented']:
         return {'what': 'model output depends on the segmentation', 'model': None, 'impl': None}
+    if 'dmodel' in ev:
+        return compare_dispatch(ev)
     return None
 
 
@@ -1123,6 +1221,7 @@ def run(ctx):
             if len(res.samples) < 5 and nlines in (2, 3) and npos and nerr and len(ev['stream']) < 80:
                 res.samples.append({'chunks': [bytes.fromhex(c).decode('latin-1') for c in case['chunks']], 'dispatcher': case['disp'],
                                     'sent': [o.decode('latin-1')[:100] for o in im['outs']]})
+            count_dispatch(res, ev)
             if ctx.model_ok:
                 dis = compare(ev)
                 if dis is not None:
@@ -1169,6 +1268,7 @@ def run(ctx):
             if ndrop and nkeep and len(case['conns']) > 1:
                 res.nontriv(case)
             for ev in o['evs']:
+                count_dispatch(res, ev)
                 if ctx.model_ok:
                     dis = compare(ev)
                     if dis is not None:
